@@ -35,8 +35,9 @@ def _time_axis(draw, identifiable=False):
     return [float(x) for x in t]
 
 
-def _spectral_axis(draw):
-    n = draw(st.integers(3, 8))
+def _spectral_axis(draw, dispersed=False):
+    # (now and then several hundred wavelengths: beyond any block size an implementation may use)
+    n = draw(st.sampled_from([257, 300, 513])) if draw(st.integers(0, 3 if dispersed else 19)) == 0 else draw(st.integers(3, 8))
     lo = draw(st.sampled_from([600.0, 450.0, 500.0]))
     step = draw(st.sampled_from([10.0, 25.0, 7.5]))
     return [lo + step * i for i in range(n)]
@@ -143,7 +144,7 @@ def kinetic_cases(draw, *, max_datasets=3, allow_full=True, allow_irf=True, iden
         spec["dataset"][lab] = dd
         same_time = i > 0 and draw(st.booleans())
         datasets[lab] = {"time": list(datasets["dataset_1"]["time"]) if same_time else _time_axis(draw, identifiable),
-                         "spectral": _spectral_axis(draw) if (i == 0 or (not identifiable and draw(st.booleans()))) else None,
+                         "spectral": _spectral_axis(draw, irf_kind == "spectral-gaussian") if (i == 0 or (not identifiable and draw(st.booleans()))) else None,
                          "clp_seed": draw(st.integers(0, 10**6)), "noise": 0.0, "noise_seed": draw(st.integers(0, 10**6))}
         shares_axis = datasets[lab]["spectral"] is None
         if datasets[lab]["spectral"] is None:
